@@ -68,6 +68,16 @@ pub fn valid(s: &Scn) -> bool {
         && s.knobs.jumps.iter().all(|j| j.0 <= 300 && j.1 <= 200)
 }
 
+/// Key with a deliberately coarse `Hash` (all keys collide) and an exact `Eq`: legal, and an
+/// implementation that identifies keys by their hash alone merges different keys.
+#[derive(Clone, Debug, PartialEq, Eq)]
+struct CKey(u32);
+impl std::hash::Hash for CKey {
+    fn hash<H: std::hash::Hasher>(&self, state: &mut H) {
+        (self.0 % 1).hash(state)
+    }
+}
+
 pub fn run(s: &Scn, ctx: &mut RunCtx) -> RunOutput {
     world::reset();
     let cfg = s.knobs.cfg(ctx, 3000, 0);
@@ -78,7 +88,7 @@ pub fn run(s: &Scn, ctx: &mut RunCtx) -> RunOutput {
                 w.script.by_req.insert((0, i as u32), vec![c.beh]);
             }
         });
-        let layer = CoalesceLayer::new(|r: &Req| r.key);
+        let layer = CoalesceLayer::new(|r: &Req| CKey(r.key));
         let base = layer.layer(SimInner::new(0));
         let mut defs = vec![];
         for (i, c) in scn.callers.iter().enumerate() {
